@@ -456,6 +456,8 @@ def reuse_worlds(tier):
     worlds.append(("two-bams-auto", w1, ["SPLIT2"]))
     # two experiments in one run (YAML): the restart is given both save prefixes
     worlds.append(("two-experiments", w1, ["YAML2"]))
+    # the same with two files in the first experiment (grouped by file name automatically) and one in the second (not grouped)
+    worlds.append(("two-experiments-mixed", w1, ["YAML2", "MIXED"]))
     # read groups from a table file (the only grouping mode with files of its own next to the saved assignments)
     worlds.append(("table-groups", w1, ["TABLE"]))
     if tier == "thorough":
@@ -484,20 +486,27 @@ def reuse_case(args):
                 if i % 4:
                     f.write("%s\tg%d\n" % (r["name"], i % 3))
         extra = [x for x in extra if x != "TABLE"] + ["--read_group", "file:" + tbl]
-    argv1 = run.base_argv(paths, out1, extra=["--keep_tmp"] + [x for x in extra if x not in ("SPLIT2", "YAML2")])
+    argv1 = run.base_argv(paths, out1, extra=["--keep_tmp"] + [x for x in extra if x not in ("SPLIT2", "YAML2", "MIXED")])
     pairs = [("OUT", "OUT0")]
     saves = [os.path.join(out1, "OUT", "aux", "OUT.save")]
     if "YAML2" in extra:
         import yaml
         seqs = syn.genome_sequences(world)
-        syn.write_bam(world, os.path.join(d, "e1.bam"), reads=[r for r in world["reads"] if r["chr"] == "chr1"], seqs=seqs)
+        r1 = [r for r in world["reads"] if r["chr"] == "chr1"]
+        files1 = ["e1.bam"]
+        if "MIXED" in extra:
+            syn.write_bam(world, os.path.join(d, "e1.bam"), reads=r1[0::2], seqs=seqs)
+            syn.write_bam(world, os.path.join(d, "e1b.bam"), reads=r1[1::2], seqs=seqs)
+            files1.append("e1b.bam")
+        else:
+            syn.write_bam(world, os.path.join(d, "e1.bam"), reads=r1, seqs=seqs)
         syn.write_bam(world, os.path.join(d, "e2.bam"), reads=[r for r in world["reads"] if r["chr"] != "chr1"], seqs=seqs)
         with open(os.path.join(d, "in.yaml"), "w") as f:
-            yaml.safe_dump([{"data format": "bam"}, {"name": "E1", "long read files": ["e1.bam"]},
+            yaml.safe_dump([{"data format": "bam"}, {"name": "E1", "long read files": files1},
                             {"name": "E2", "long read files": ["e2.bam"]}], f)
         i = argv1.index("--bam")
         argv1[i:i + 2] = ["--yaml", os.path.join(d, "in.yaml")]
-        extra = [x for x in extra if x != "YAML2"]
+        extra = [x for x in extra if x not in ("YAML2", "MIXED")]
         pairs = [("E1", "OUT0"), ("E2", "OUT1")]
         saves = [os.path.join(out1, e, "aux", e + ".save") for e in ("E1", "E2")]
     if "SPLIT2" in extra:
